@@ -43,7 +43,19 @@ func tlogBuild(recs []string) (tlogStore, error) {
 	return st, nil
 }
 
-func tlogSynthRecord(seed, i int) string { return fmt.Sprintf("rec %d %d\n", seed, i) }
+// tlogSynthPad: every fifth synthetic record is padded to one of these total lengths (SHA-256 block and
+// padding edges, 255/256/257, 511..513), so that logs named by `@seed:count` also sweep record-length boundaries.
+var tlogSynthPad = []int{0, 1, 31, 32, 33, 54, 55, 56, 63, 64, 65, 119, 120, 127, 128, 129, 255, 256, 257, 511, 512, 513}
+
+func tlogSynthRecord(seed, i int) string {
+	s := fmt.Sprintf("rec %d %d\n", seed, i)
+	if i%5 == 2 {
+		if target := tlogSynthPad[(seed*7+i/5)%len(tlogSynthPad)]; target > len(s) {
+			s += strings.Repeat("x", target-len(s))
+		}
+	}
+	return s
+}
 
 func tlogSynth(seed, n int) []string {
 	out := make([]string, n)
